@@ -25,6 +25,7 @@ HDR = ("From Coq Require Import List NArith ZArith Bool.\n"
 XSTREAM_SHARD = 999999   # shard key of the known-finding probe (its font indices are >= 1000000)
 XSTREAM_BASE = 1000000
 KNOWN_XSTREAM = "kern_cross_stream_resets_attachments"
+KNOWN_VF2 = "pairpos_second_glyph_by_value_not_format"
 
 DIRS = {"ltr": "LTR", "rtl": "RTL", "ttb": "TTB", "btt": "BTT"}
 HOR = {"-": "None", "Phnx": "(Some RTL)", "Latn": "(Some LTR)"}
@@ -245,6 +246,22 @@ def run(chk):
                 fails += xstream_hits[:1]
         elif chk.is_known(KNOWN_XSTREAM):
             dis.append({"what": "stale-known-finding", "class": KNOWN_XSTREAM, "note": "the probe no longer fails; the KNOWN_FINDINGS entry is stale"})
+        # ---- the known finding: second glyph of a pair consumed by the record's values instead of ValueFormat2
+        rc, out, err = C.run_rbv(binp, ["c07", "vf2-probe"], timeout=60)
+        m = re.search(r"^vf2 (\S+) (.*)$", out, re.M)
+        chk.note("valueformat2_probe", m.group(0) if m else "no answer")
+        if m and m.group(1) == "by-value":
+            if chk.is_known(KNOWN_VF2):
+                chk.known_finding(KNOWN_VF2, "PairPos format 1, ValueFormat2 = 0x000F with all-zero second records, text A B C: advances %s; "
+                                  "OpenType/HarfBuzz consume B (550, 600, 600)" % m.group(2))
+            else:
+                fails.append({"what": "pair-second-glyph-not-consumed", "probe": m.group(0), "font": "c07 vf2-probe (PairPos1, valueFormat2=0x000F, zero second records)",
+                              "request": "glyphs 1 2 3 ltr"})
+        elif m and m.group(1) == "opentype":
+            if chk.is_known(KNOWN_VF2):
+                dis.append({"what": "stale-known-finding", "class": KNOWN_VF2, "note": "the probe now follows the value format; the KNOWN_FINDINGS entry is stale"})
+        else:
+            fails.append({"what": "pair-probe-unexpected", "probe": m.group(0) if m else (out + err)[-300:], "request": "glyphs 1 2 3 ltr"})
         # ---- kern on/off on corpus fonts
         rc, out, err = C.run_rbv(binp, ["c07", "kernoff-corpus"], timeout=600)
         for line in out.splitlines():
